@@ -5,7 +5,7 @@ import warnings
 import numpy as np
 from hypothesis import strategies as st
 
-from ..core import Failure, Law, Violation, given_law
+from ..core import plain_law, Failure, Law, Violation, given_law
 from .. import gen
 
 RULE = ("profiles: N in 2..60 layers; heights on regular linspace/arange grids over many ranges (slab-edge rounding is "
@@ -274,8 +274,46 @@ def gctm_body(ctx, case):
     obj_guess = float(np.sum((mom(gh, gc) - m0) ** 2))
     ctx.require(obj <= obj_guess * (1 + 1e-9) + 1e-18, "GCTM: moment objective %r worse than at its own starting guess %r" % (obj, obj_guess))
     rel = float(np.max(np.abs(mom(hl, cl) - m0) / m0))
-    ctx.residual("gctm_relative_moment_error", rel, 5e-2)
-    ctx.require(rel <= 5e-2, "GCTM: first 2L-1 moments reproduced only to %.3g (> 5e-2), L=%d" % (rel, L))
+    # "to optimiser accuracy" has a heavy tail when L is close to N (L-BFGS-B stops on a flat objective: 6 % was seen once in
+    # 8000 cases, median 3e-6).  Per case only a gross-error bound is asserted; the accuracy claim is decided over a whole
+    # sample by the law gctm_sample (quantiles), which an off-by-one in the moment count or a wrong scaling shifts as a whole.
+    ctx.residual("gctm_relative_moment_error", rel, 0.5)
+    ctx.require(rel <= 0.5, "GCTM: first 2L-1 moments reproduced only to %.3g (> 0.5), L=%d" % (rel, L))
+
+
+def gctm_sample_cases(tier):
+    return [{"seed": s, "n": 120} for s in range(2 if tier == "quick" else 16)]
+
+
+def gctm_sample_body(ctx, case):
+    """Quantiles of the relative moment error over a fixed sample of profiles (a pure function of the case)."""
+    pc = PC()
+    rng = gen.np_rng(1000003 * (ctx.seed if hasattr(ctx, "seed") else 0) + case["seed"])
+    rels = []
+    hs, cs = 10000.0, 100e-15
+    for _ in range(case["n"]):
+        N, L = int(rng.integers(6, 41)), int(rng.integers(2, 5))
+        hi = float(rng.choice([15000.0, 20000.0, 25000.0]))
+        if rng.integers(0, 2):
+            h = np.linspace(0, hi, N)
+        else:
+            edges = np.linspace(0, hi, L + 1)
+            forced = [rng.uniform(edges[i] + 1e-3 * hi, edges[i + 1] - 1e-3 * hi) for i in range(L)]
+            h = np.sort(np.concatenate([forced, rng.uniform(0, hi, size=max(0, N - L - 2)), [0.0, hi]]))
+        p = np.exp(rng.uniform(math.log(5e-16), math.log(5e-14), size=len(h)))
+        with warnings.catch_warnings():
+            warnings.simplefilter("ignore")
+            hl, cl = pc.GCTM(h.copy(), p.copy(), L)
+        m0 = np.array([np.sum((p / cs) * (h / hs) ** i) for i in range(2 * L - 1)])
+        m1 = np.array([np.sum((np.asarray(cl) / cs) * (np.asarray(hl) / hs) ** i) for i in range(2 * L - 1)])
+        rels.append(float(np.max(np.abs(m1 - m0) / m0)))
+    rels = np.sort(np.array(rels))
+    med, q90 = float(np.median(rels)), float(rels[int(0.9 * len(rels))])
+    ctx.case(case, nontrivial=True, classes=["sample_of_%d" % case["n"]])
+    ctx.residual("gctm median relative moment error over a sample", med, 1e-3)
+    ctx.residual("gctm 90th percentile relative moment error over a sample", q90, 2e-2)
+    ctx.require(med <= 1e-3, "GCTM: median relative error of the first 2L-1 moments over %d profiles is %.3g (> 1e-3)" % (case["n"], med))
+    ctx.require(q90 <= 2e-2, "GCTM: 90th percentile of the relative moment error over %d profiles is %.3g (> 2e-2)" % (case["n"], q90))
 
 
 LAWS = [
@@ -283,4 +321,5 @@ LAWS = [
     Law("equivalent_layers_enum", el_enum_run, replay=lambda ctx, case: check_equivalent(ctx, case["h"], case["p"], case["L"], None), shards={"quick": 12, "thorough": 16}),
     given_law("optimal_grouping", og_cases(22), og_body, {"quick": 150, "thorough": 1000}, shards={"quick": 3, "thorough": 16}),
     given_law("gctm", gctm_cases(), gctm_body, {"quick": 60, "thorough": 500}, shards={"quick": 3, "thorough": 16}),
+    plain_law("gctm_sample", gctm_sample_cases, gctm_sample_body, shards={"quick": 2, "thorough": 16}),
 ]
